@@ -468,5 +468,81 @@ theorem withPrefix_sim {t : Patricia V} {m : Map V} (h : PInv t m) (key : Key) (
     simp only [bind_ok, h2, h3, h4, h.ents]
     rfl
 
+/-! ## one step and whole histories (everything except deletion) -/
+
+theorem PInv.sortedMap {t : Patricia V} {m : Map V} (h : PInv t m) : Sorted m := by
+  rcases h with ⟨_, rfl, _⟩ | ⟨r, rn, T, h⟩
+  · exact Sorted.nil
+  · exact h.sorted
+
+theorem Spec.Map.mem_put_subset (m : Map V) (k : Key) (v : V) (e : Key × V) (h : e ∈ Map.put m k v) : e = (k, v) ∨ e ∈ m := by
+  induction m with
+  | nil => simpa [Map.put] using h
+  | cons x m ih =>
+    obtain ⟨k', v'⟩ := x
+    simp only [Map.put] at h
+    split at h
+    · rcases List.mem_cons.mp h with h | h
+      · exact .inl h
+      · exact .inr h
+    · split at h
+      · rcases List.mem_cons.mp h with h | h
+        · exact .inl h
+        · exact .inr (List.mem_cons_of_mem _ h)
+      · rcases List.mem_cons.mp h with h | h
+        · exact .inr (h ▸ List.mem_cons_self ..)
+        · rcases ih h with h | h
+          · exact .inl h
+          · exact .inr (List.mem_cons_of_mem _ h)
+
+/-- one step of a history in scope; `hne`: no empty key is held -/
+theorem step_sim {t : Patricia V} {m : Map V} (h : PInv t m) (hne : ∀ e ∈ m, e.1 ≠ []) (op : Op V)
+    (hs : op.patriciaScope = true) (hk : op.smallKeys = true) :
+    ∃ t', t.step op = .ok (t', (Map.step m op).2) ∧ PInv t' (Map.step m op).1 ∧ ∀ e ∈ (Map.step m op).1, e.1 ≠ [] := by
+  cases op with
+  | put k v =>
+    simp only [Op.smallKeys, Bool.and_eq_true, Bool.not_eq_eq_eq_not, Bool.not_true, List.isEmpty_eq_false_iff,
+      decide_eq_true_eq] at hk
+    obtain ⟨t', h1, h2⟩ := put_sim h k hk.2 v
+    refine ⟨t', by simp [Patricia.step, h1, Outcome.map, Map.step], h2, ?_⟩
+    intro e he
+    rcases Spec.Map.mem_put_subset m k v e he with rfl | he
+    · exact hk.1
+    · exact hne e he
+  | get k => exact ⟨t, by simp [Patricia.step, get_sim h, Outcome.map, Map.step], h, hne⟩
+  | delete k => simp [Op.patriciaScope] at hs
+  | deleteMin => simp [Op.patriciaScope] at hs
+  | deleteMax => simp [Op.patriciaScope] at hs
+  | deleteAll => exact ⟨_, rfl, PInv.new, by simp [Map.step]⟩
+  | size => exact ⟨t, by simp [Patricia.step, Map.step, size_sim h], h, hne⟩
+  | min => exact ⟨t, by simp [Patricia.step, min_sim h, Outcome.map, Map.step], h, hne⟩
+  | max => exact ⟨t, by simp [Patricia.step, max_sim h, Outcome.map, Map.step], h, hne⟩
+  | floor k => exact ⟨t, by simp [Patricia.step, floor_sim h, Outcome.map, Map.step], h, hne⟩
+  | ceiling k => exact ⟨t, by simp [Patricia.step, ceiling_sim h, Outcome.map, Map.step], h, hne⟩
+  | select i => exact ⟨t, by simp [Patricia.step, select_sim h, Outcome.map, Map.step], h, hne⟩
+  | rank k => exact ⟨t, by simp [Patricia.step, rank_sim h, Outcome.map, Map.step], h, hne⟩
+  | range lo hi => exact ⟨t, by simp [Patricia.step, range_sim h, Outcome.map, Map.step], h, hne⟩
+  | rangeSize lo hi => exact ⟨t, by simp [Patricia.step, rangeSize_sim h, Outcome.map, Map.step], h, hne⟩
+  | all => exact ⟨t, by simp [Patricia.step, all_sim h, Outcome.map, Map.step], h, hne⟩
+  | withPrefix p =>
+    simp only [Op.smallKeys, decide_eq_true_eq] at hk
+    exact ⟨t, by simp [Patricia.step, withPrefix_sim h p hk, Outcome.map, Map.step], h, hne⟩
+  | longestPrefixOf s =>
+    exact ⟨t, by simp [Patricia.step, longestPrefixOf_sim h h.sortedMap hne s, Outcome.map, Map.step], h, hne⟩
+  | «match» pat => exact ⟨t, by simp [Patricia.step, match_sim h, Outcome.map, Map.step], h, hne⟩
+
+theorem run_sim {t : Patricia V} {m : Map V} (h : PInv t m) (hne : ∀ e ∈ m, e.1 ≠ []) (ops : List (Op V))
+    (hh : PatriciaHistory ops = true) :
+    Patricia.run t ops = (Map.run m ops).map Outcome.ok := by
+  induction ops generalizing t m with
+  | nil => rfl
+  | cons op ops ih =>
+    simp only [PatriciaHistory, Bool.and_eq_true] at hh
+    obtain ⟨⟨hs, hk⟩, hrest⟩ := hh
+    obtain ⟨t', h1, h2, h3⟩ := step_sim h hne op hs hk
+    simp only [Patricia.run, runTrace, h1, Map.run, runSpec, List.map_cons]
+    congr 1
+    exact ih h2 h3 hrest
+
 end Patricia
 end AlgoVerif.C06
